@@ -577,6 +577,9 @@ fn main() {
                 });
             }
             let mut f_out = std::fs::File::create(format!("{}/conc.impl", out)).unwrap();
+            let conc_crashlog = m.get("crashlog").map(|s| s == "1").unwrap_or(false);
+            let mut crash_in: Vec<String> = Vec::new();
+            let mut crash_log: Vec<String> = Vec::new();
             let mut nrun = 0;
             for id in 0..n {
                 let kind = &kinds[id % kinds.len()];
@@ -623,7 +626,7 @@ fn main() {
                     let mut step = 0usize;
                     let mut broken = false;
                     for (b, ops) in batches.iter().enumerate() {
-                        let r = conc::run_batch(&dev, &files, ops, &mut rng, sc % 3, step);
+                        let r = conc::run_batch(&dev, &files, ops, &mut rng, [0usize, 1, 2, 2][sc % 4], step);
                         step = r.steps + 1;
                         lines.push(format!("batch {}", b));
                         for (i, t) in r.tasks.iter().enumerate() {
@@ -642,6 +645,11 @@ fn main() {
                                 buf.map(|b| format!(" buf={}", b.replace(' ', ","))).unwrap_or_default()
                             ));
                         }
+                        for (i, t) in r.tasks.iter().enumerate() {
+                            if matches!(t.op, seq::Op::Flush) {
+                                lines.push(format!("uncov {} {} {}", b, i, t.uncovered));
+                            }
+                        }
                         lines.push(format!(
                             "sched steps={} deadlock={} livelock={} panic={}",
                             r.steps, r.deadlock as u8, r.livelock as u8, r.panicked as u8
@@ -650,6 +658,15 @@ fn main() {
                             broken = true;
                             break;
                         }
+                        // quiescent point after every batch: flag and dirty metadata (C18)
+                        {
+                            let snap = dev.verif_snapshot();
+                            let dirty = snap.l2_slices.iter().filter(|s| s.dirty).count()
+                                + snap.rb_slices.iter().filter(|s| s.dirty).count()
+                                + snap.l1_dirty_blocks.len()
+                                + snap.rt_dirty_blocks.len();
+                            lines.push(format!("bnf {} {} {}", b, dev.need_flush_meta() as u8, dirty));
+                        }
                     }
                     if broken {
                         std::mem::forget(dev);
@@ -657,6 +674,15 @@ fn main() {
                         // quiescent point
                         let nf = dev.need_flush_meta();
                         lines.push(format!("nf {}", nf as u8));
+                        // C18 directly: with the flag clear nothing may be dirty in the caches / top tables
+                        {
+                            let snap = dev.verif_snapshot();
+                            let dirty = snap.l2_slices.iter().filter(|s| s.dirty).count()
+                                + snap.rb_slices.iter().filter(|s| s.dirty).count()
+                                + snap.l1_dirty_blocks.len()
+                                + snap.rt_dirty_blocks.len();
+                            lines.push(format!("nfdirty {}", dirty));
+                        }
                         let sweep_of = |fs: &Vec<sim::SimFile>| -> String {
                             let copies: Vec<sim::SimFile> = fs.iter().map(|f| sim::SimFile::new("copy", f.snapshot())).collect();
                             let mut p = case.params();
@@ -684,6 +710,49 @@ fn main() {
                             Ok(Ok(())) => {
                                 lines.push("flush ok".into());
                                 lines.push(format!("reopen {}", sweep_of(&files).replace(' ', ",")));
+                                // C05 under concurrency: after flush_meta + fsync_range everything that completed is
+                                // durable. Durable image = initial bytes + every request that completed before a
+                                // successful fsync was ISSUED (what a crash right now is guaranteed to keep).
+                                let fs = std::panic::catch_unwind(std::panic::AssertUnwindSafe(|| futures::executor::block_on(dev.fsync_range(0, usize::MAX))));
+                                if let Ok(Ok(())) = fs {
+                                    let mut durable = images.files[0].clone();
+                                    {
+                                        let st = files[0].0.borrow();
+                                        let last_sync_issue = st.log.iter().filter(|r| r.kind == sim::Kind::Sync && !r.failed && r.done_seq.is_some()).map(|r| r.issue_seq).max();
+                                        let mut reqs: Vec<&sim::Req> = st
+                                            .log
+                                            .iter()
+                                            .filter(|r| (r.kind == sim::Kind::Write || r.kind == sim::Kind::Punch) && !r.failed)
+                                            .filter(|r| match (r.done_seq, last_sync_issue) { (Some(d), Some(s)) => d < s, _ => false })
+                                            .collect();
+                                        reqs.sort_by_key(|r| r.done_seq.unwrap());
+                                        for r in reqs {
+                                            let off = r.off as usize;
+                                            match (&r.kind, &r.payload) {
+                                                (sim::Kind::Write, Some(p)) => {
+                                                    if durable.len() < off + p.len() {
+                                                        durable.resize(off + p.len(), 0);
+                                                    }
+                                                    durable[off..off + p.len()].copy_from_slice(p);
+                                                }
+                                                (sim::Kind::Punch, _) => {
+                                                    let end = (off + r.len).min(durable.len());
+                                                    if off < end {
+                                                        for b in &mut durable[off..end] {
+                                                            *b = 0;
+                                                        }
+                                                    }
+                                                }
+                                                _ => {}
+                                            }
+                                        }
+                                    }
+                                    let mut dfiles: Vec<sim::SimFile> = vec![sim::SimFile::new("durable", durable)];
+                                    for f in files.iter().skip(1) {
+                                        dfiles.push(sim::SimFile::new("copy", f.snapshot()));
+                                    }
+                                    lines.push(format!("durable {}", sweep_of(&dfiles).replace(' ', ",")));
+                                }
                             }
                             Ok(Err(_)) => lines.push("flush err".into()),
                             Err(_) => {
@@ -696,8 +765,23 @@ fn main() {
                         writeln!(f_out, "{}", l).unwrap();
                     }
                     f_out.flush().unwrap();
+                    if conc_crashlog && case.img == "format" && !lines.iter().any(|l| l.starts_with("sched") && (l.contains("deadlock=1") || l.contains("livelock=1") || l.contains("panic=1"))) {
+                        // C04 under concurrency: the request log of this schedule for the crash driver
+                        std::fs::write(format!("{}/case{}.img0", out, run_id), &images.files[0]).unwrap();
+                        let mut c2 = case.clone();
+                        c2.id = run_id;
+                        crash_in.push(c2.header());
+                        crash_in.push("end".into());
+                        crash_log.push(format!("case {}", run_id));
+                        crash_log.extend(seq::conc_crash_lines(&files));
+                        crash_log.push("end".into());
+                    }
                     nrun += 1;
                 }
+            }
+            if conc_crashlog {
+                write_lines(&format!("{}/crash.in", out), &crash_in);
+                write_lines(&format!("{}/crash.log", out), &crash_log);
             }
             println!("conc runs={}", nrun);
         }
